@@ -303,3 +303,319 @@ func lemmaLenError(c *errorCodec, msg Message, version primitive.ProtocolVersion
 //@   invariant #0 ref: !first ==> ksName == cols[0].Keyspace && tableName == cols[0].Table
 //@   invariant #0 same: forall k int :: 0 <= k && k < rangeindex + 1 ==> cols[k].Keyspace == cols[0].Keyspace && cols[k].Table == cols[0].Table
 //@   ensures all: result == (len(cols) > 0 && (forall k int :: 0 <= k && k < len(cols) ==> cols[k].Keyspace == cols[0].Keyspace && cols[k].Table == cols[0].Table))
+
+// ---- C01: message round trips (Encode, then Decode of the bytes produced, gives back the same contents) ----------
+// Each lemma runs the real Encode into a buffer and the real Decode on that buffer. Strings and byte strings are
+// compared by length and byte by byte.
+
+func lemmaRoundTripAuthenticate(c *authenticateCodec, msg *Authenticate, version primitive.ProtocolVersion) (Message, error) {
+	buf := &bytes.Buffer{}
+	if err := c.Encode(msg, buf, version); err != nil {
+		return nil, err
+	}
+	return c.Decode(buf, version)
+}
+
+//@ func lemmaRoundTripAuthenticate
+//@   prop C01
+//@   ensures kind: result1 == nil ==> typeis(result0, *Authenticate) && !isnil(unbox(result0, *Authenticate))
+//@   requires fits: len(msg.Authenticator) <= 65535
+//@   ensures len: result1 == nil ==> len(unbox(result0, *Authenticate).Authenticator) == len(msg.Authenticator)
+//@   ensures same: result1 == nil ==> forall k int :: 0 <= k && k < len(msg.Authenticator) ==> unbox(result0, *Authenticate).Authenticator[k] == msg.Authenticator[k]
+//@   ensures accepted: msg.Authenticator != "" && len(msg.Authenticator) <= 65535 ==> result1 == nil
+
+// >>> generated by /verif/tools/gen_roundtrip.py
+// (do not edit by hand; the table of messages and fields is in the generator)
+
+func lemmaRoundTripAuthResponse(c *authResponseCodec, msg *AuthResponse, version primitive.ProtocolVersion) (Message, error) {
+	buf := &bytes.Buffer{}
+	if err := c.Encode(msg, buf, version); err != nil {
+		return nil, err
+	}
+	return c.Decode(buf, version)
+}
+
+//@ func lemmaRoundTripAuthResponse
+//@   prop C01
+//@   requires fitsToken: len(msg.Token) <= 2147483647
+//@   ensures kind: result1 == nil ==> typeis(result0, *AuthResponse) && !isnil(unbox(result0, *AuthResponse))
+//@   ensures TokenLen: result1 == nil ==> len(unbox(result0, *AuthResponse).Token) == len(msg.Token)
+//@   ensures Token: result1 == nil ==> forall k int :: 0 <= k && k < len(msg.Token) ==> unbox(result0, *AuthResponse).Token[k] == msg.Token[k]
+//@   ensures TokenNil: result1 == nil ==> isnil(unbox(result0, *AuthResponse).Token) == isnil(msg.Token)
+
+func lemmaRoundTripAuthChallenge(c *authChallengeCodec, msg *AuthChallenge, version primitive.ProtocolVersion) (Message, error) {
+	buf := &bytes.Buffer{}
+	if err := c.Encode(msg, buf, version); err != nil {
+		return nil, err
+	}
+	return c.Decode(buf, version)
+}
+
+//@ func lemmaRoundTripAuthChallenge
+//@   prop C01
+//@   requires fitsToken: len(msg.Token) <= 2147483647
+//@   ensures kind: result1 == nil ==> typeis(result0, *AuthChallenge) && !isnil(unbox(result0, *AuthChallenge))
+//@   ensures TokenLen: result1 == nil ==> len(unbox(result0, *AuthChallenge).Token) == len(msg.Token)
+//@   ensures Token: result1 == nil ==> forall k int :: 0 <= k && k < len(msg.Token) ==> unbox(result0, *AuthChallenge).Token[k] == msg.Token[k]
+//@   ensures TokenNil: result1 == nil ==> isnil(unbox(result0, *AuthChallenge).Token) == isnil(msg.Token)
+
+func lemmaRoundTripAuthSuccess(c *authSuccessCodec, msg *AuthSuccess, version primitive.ProtocolVersion) (Message, error) {
+	buf := &bytes.Buffer{}
+	if err := c.Encode(msg, buf, version); err != nil {
+		return nil, err
+	}
+	return c.Decode(buf, version)
+}
+
+//@ func lemmaRoundTripAuthSuccess
+//@   prop C01
+//@   requires fitsToken: len(msg.Token) <= 2147483647
+//@   ensures kind: result1 == nil ==> typeis(result0, *AuthSuccess) && !isnil(unbox(result0, *AuthSuccess))
+//@   ensures TokenLen: result1 == nil ==> len(unbox(result0, *AuthSuccess).Token) == len(msg.Token)
+//@   ensures Token: result1 == nil ==> forall k int :: 0 <= k && k < len(msg.Token) ==> unbox(result0, *AuthSuccess).Token[k] == msg.Token[k]
+//@   ensures TokenNil: result1 == nil ==> isnil(unbox(result0, *AuthSuccess).Token) == isnil(msg.Token)
+
+func lemmaRoundTripOptions(c *optionsCodec, msg *Options, version primitive.ProtocolVersion) (Message, error) {
+	buf := &bytes.Buffer{}
+	if err := c.Encode(msg, buf, version); err != nil {
+		return nil, err
+	}
+	return c.Decode(buf, version)
+}
+
+//@ func lemmaRoundTripOptions
+//@   prop C01
+//@   ensures kind: result1 == nil ==> typeis(result0, *Options) && !isnil(unbox(result0, *Options))
+
+func lemmaRoundTripReady(c *readyCodec, msg *Ready, version primitive.ProtocolVersion) (Message, error) {
+	buf := &bytes.Buffer{}
+	if err := c.Encode(msg, buf, version); err != nil {
+		return nil, err
+	}
+	return c.Decode(buf, version)
+}
+
+//@ func lemmaRoundTripReady
+//@   prop C01
+//@   ensures kind: result1 == nil ==> typeis(result0, *Ready) && !isnil(unbox(result0, *Ready))
+
+func lemmaRoundTripPrepare(c *prepareCodec, msg *Prepare, version primitive.ProtocolVersion) (Message, error) {
+	buf := &bytes.Buffer{}
+	if err := c.Encode(msg, buf, version); err != nil {
+		return nil, err
+	}
+	return c.Decode(buf, version)
+}
+
+//@ func lemmaRoundTripPrepare
+//@   prop C01
+//@   requires fitsQuery: len(msg.Query) <= 2147483647
+//@   ensures kind: result1 == nil ==> typeis(result0, *Prepare) && !isnil(unbox(result0, *Prepare))
+//@   ensures QueryLen: result1 == nil ==> len(unbox(result0, *Prepare).Query) == len(msg.Query)
+//@   ensures Query: result1 == nil ==> forall k int :: 0 <= k && k < len(msg.Query) ==> unbox(result0, *Prepare).Query[k] == msg.Query[k]
+
+func lemmaRoundTripRevise(c *reviseCodec, msg *Revise, version primitive.ProtocolVersion) (Message, error) {
+	buf := &bytes.Buffer{}
+	if err := c.Encode(msg, buf, version); err != nil {
+		return nil, err
+	}
+	return c.Decode(buf, version)
+}
+
+//@ func lemmaRoundTripRevise
+//@   prop C01
+//@   ensures kind: result1 == nil ==> typeis(result0, *Revise) && !isnil(unbox(result0, *Revise))
+//@   ensures RevisionType: result1 == nil ==> unbox(result0, *Revise).RevisionType == msg.RevisionType
+//@   ensures TargetStreamId: result1 == nil ==> unbox(result0, *Revise).TargetStreamId == msg.TargetStreamId
+//@   ensures NextPages: result1 == nil && msg.RevisionType == primitive.DseRevisionTypeMoreContinuousPages ==> unbox(result0, *Revise).NextPages == msg.NextPages
+
+func lemmaRoundTripVoidResult(c *resultCodec, msg *VoidResult, version primitive.ProtocolVersion) (Message, error) {
+	buf := &bytes.Buffer{}
+	if err := c.Encode(msg, buf, version); err != nil {
+		return nil, err
+	}
+	return c.Decode(buf, version)
+}
+
+//@ func lemmaRoundTripVoidResult
+//@   prop C01
+//@   expand (*message.resultCodec).Encode, (*message.resultCodec).Decode
+//@   ensures kind: result1 == nil ==> typeis(result0, *VoidResult) && !isnil(unbox(result0, *VoidResult))
+
+func lemmaRoundTripSetKeyspaceResult(c *resultCodec, msg *SetKeyspaceResult, version primitive.ProtocolVersion) (Message, error) {
+	buf := &bytes.Buffer{}
+	if err := c.Encode(msg, buf, version); err != nil {
+		return nil, err
+	}
+	return c.Decode(buf, version)
+}
+
+//@ func lemmaRoundTripSetKeyspaceResult
+//@   prop C01
+//@   expand (*message.resultCodec).Encode, (*message.resultCodec).Decode
+//@   requires fitsKeyspace: len(msg.Keyspace) <= 65535
+//@   ensures kind: result1 == nil ==> typeis(result0, *SetKeyspaceResult) && !isnil(unbox(result0, *SetKeyspaceResult))
+//@   ensures KeyspaceLen: result1 == nil ==> len(unbox(result0, *SetKeyspaceResult).Keyspace) == len(msg.Keyspace)
+//@   ensures Keyspace: result1 == nil ==> forall k int :: 0 <= k && k < len(msg.Keyspace) ==> unbox(result0, *SetKeyspaceResult).Keyspace[k] == msg.Keyspace[k]
+
+func lemmaRoundTripServerError(c *errorCodec, msg *ServerError, version primitive.ProtocolVersion) (Message, error) {
+	buf := &bytes.Buffer{}
+	if err := c.Encode(msg, buf, version); err != nil {
+		return nil, err
+	}
+	return c.Decode(buf, version)
+}
+
+//@ func lemmaRoundTripServerError
+//@   prop C01
+//@   expand (*message.errorCodec).Encode, (*message.errorCodec).Decode
+//@   requires fitsErrorMessage: len(msg.ErrorMessage) <= 65535
+//@   ensures kind: result1 == nil ==> typeis(result0, *ServerError) && !isnil(unbox(result0, *ServerError))
+//@   ensures ErrorMessageLen: result1 == nil ==> len(unbox(result0, *ServerError).ErrorMessage) == len(msg.ErrorMessage)
+//@   ensures ErrorMessage: result1 == nil ==> forall k int :: 0 <= k && k < len(msg.ErrorMessage) ==> unbox(result0, *ServerError).ErrorMessage[k] == msg.ErrorMessage[k]
+
+func lemmaRoundTripProtocolError(c *errorCodec, msg *ProtocolError, version primitive.ProtocolVersion) (Message, error) {
+	buf := &bytes.Buffer{}
+	if err := c.Encode(msg, buf, version); err != nil {
+		return nil, err
+	}
+	return c.Decode(buf, version)
+}
+
+//@ func lemmaRoundTripProtocolError
+//@   prop C01
+//@   expand (*message.errorCodec).Encode, (*message.errorCodec).Decode
+//@   requires fitsErrorMessage: len(msg.ErrorMessage) <= 65535
+//@   ensures kind: result1 == nil ==> typeis(result0, *ProtocolError) && !isnil(unbox(result0, *ProtocolError))
+//@   ensures ErrorMessageLen: result1 == nil ==> len(unbox(result0, *ProtocolError).ErrorMessage) == len(msg.ErrorMessage)
+//@   ensures ErrorMessage: result1 == nil ==> forall k int :: 0 <= k && k < len(msg.ErrorMessage) ==> unbox(result0, *ProtocolError).ErrorMessage[k] == msg.ErrorMessage[k]
+
+func lemmaRoundTripAuthenticationError(c *errorCodec, msg *AuthenticationError, version primitive.ProtocolVersion) (Message, error) {
+	buf := &bytes.Buffer{}
+	if err := c.Encode(msg, buf, version); err != nil {
+		return nil, err
+	}
+	return c.Decode(buf, version)
+}
+
+//@ func lemmaRoundTripAuthenticationError
+//@   prop C01
+//@   expand (*message.errorCodec).Encode, (*message.errorCodec).Decode
+//@   requires fitsErrorMessage: len(msg.ErrorMessage) <= 65535
+//@   ensures kind: result1 == nil ==> typeis(result0, *AuthenticationError) && !isnil(unbox(result0, *AuthenticationError))
+//@   ensures ErrorMessageLen: result1 == nil ==> len(unbox(result0, *AuthenticationError).ErrorMessage) == len(msg.ErrorMessage)
+//@   ensures ErrorMessage: result1 == nil ==> forall k int :: 0 <= k && k < len(msg.ErrorMessage) ==> unbox(result0, *AuthenticationError).ErrorMessage[k] == msg.ErrorMessage[k]
+
+func lemmaRoundTripOverloaded(c *errorCodec, msg *Overloaded, version primitive.ProtocolVersion) (Message, error) {
+	buf := &bytes.Buffer{}
+	if err := c.Encode(msg, buf, version); err != nil {
+		return nil, err
+	}
+	return c.Decode(buf, version)
+}
+
+//@ func lemmaRoundTripOverloaded
+//@   prop C01
+//@   expand (*message.errorCodec).Encode, (*message.errorCodec).Decode
+//@   requires fitsErrorMessage: len(msg.ErrorMessage) <= 65535
+//@   ensures kind: result1 == nil ==> typeis(result0, *Overloaded) && !isnil(unbox(result0, *Overloaded))
+//@   ensures ErrorMessageLen: result1 == nil ==> len(unbox(result0, *Overloaded).ErrorMessage) == len(msg.ErrorMessage)
+//@   ensures ErrorMessage: result1 == nil ==> forall k int :: 0 <= k && k < len(msg.ErrorMessage) ==> unbox(result0, *Overloaded).ErrorMessage[k] == msg.ErrorMessage[k]
+
+func lemmaRoundTripIsBootstrapping(c *errorCodec, msg *IsBootstrapping, version primitive.ProtocolVersion) (Message, error) {
+	buf := &bytes.Buffer{}
+	if err := c.Encode(msg, buf, version); err != nil {
+		return nil, err
+	}
+	return c.Decode(buf, version)
+}
+
+//@ func lemmaRoundTripIsBootstrapping
+//@   prop C01
+//@   expand (*message.errorCodec).Encode, (*message.errorCodec).Decode
+//@   requires fitsErrorMessage: len(msg.ErrorMessage) <= 65535
+//@   ensures kind: result1 == nil ==> typeis(result0, *IsBootstrapping) && !isnil(unbox(result0, *IsBootstrapping))
+//@   ensures ErrorMessageLen: result1 == nil ==> len(unbox(result0, *IsBootstrapping).ErrorMessage) == len(msg.ErrorMessage)
+//@   ensures ErrorMessage: result1 == nil ==> forall k int :: 0 <= k && k < len(msg.ErrorMessage) ==> unbox(result0, *IsBootstrapping).ErrorMessage[k] == msg.ErrorMessage[k]
+
+func lemmaRoundTripTruncateError(c *errorCodec, msg *TruncateError, version primitive.ProtocolVersion) (Message, error) {
+	buf := &bytes.Buffer{}
+	if err := c.Encode(msg, buf, version); err != nil {
+		return nil, err
+	}
+	return c.Decode(buf, version)
+}
+
+//@ func lemmaRoundTripTruncateError
+//@   prop C01
+//@   expand (*message.errorCodec).Encode, (*message.errorCodec).Decode
+//@   requires fitsErrorMessage: len(msg.ErrorMessage) <= 65535
+//@   ensures kind: result1 == nil ==> typeis(result0, *TruncateError) && !isnil(unbox(result0, *TruncateError))
+//@   ensures ErrorMessageLen: result1 == nil ==> len(unbox(result0, *TruncateError).ErrorMessage) == len(msg.ErrorMessage)
+//@   ensures ErrorMessage: result1 == nil ==> forall k int :: 0 <= k && k < len(msg.ErrorMessage) ==> unbox(result0, *TruncateError).ErrorMessage[k] == msg.ErrorMessage[k]
+
+func lemmaRoundTripSyntaxError(c *errorCodec, msg *SyntaxError, version primitive.ProtocolVersion) (Message, error) {
+	buf := &bytes.Buffer{}
+	if err := c.Encode(msg, buf, version); err != nil {
+		return nil, err
+	}
+	return c.Decode(buf, version)
+}
+
+//@ func lemmaRoundTripSyntaxError
+//@   prop C01
+//@   expand (*message.errorCodec).Encode, (*message.errorCodec).Decode
+//@   requires fitsErrorMessage: len(msg.ErrorMessage) <= 65535
+//@   ensures kind: result1 == nil ==> typeis(result0, *SyntaxError) && !isnil(unbox(result0, *SyntaxError))
+//@   ensures ErrorMessageLen: result1 == nil ==> len(unbox(result0, *SyntaxError).ErrorMessage) == len(msg.ErrorMessage)
+//@   ensures ErrorMessage: result1 == nil ==> forall k int :: 0 <= k && k < len(msg.ErrorMessage) ==> unbox(result0, *SyntaxError).ErrorMessage[k] == msg.ErrorMessage[k]
+
+func lemmaRoundTripUnauthorized(c *errorCodec, msg *Unauthorized, version primitive.ProtocolVersion) (Message, error) {
+	buf := &bytes.Buffer{}
+	if err := c.Encode(msg, buf, version); err != nil {
+		return nil, err
+	}
+	return c.Decode(buf, version)
+}
+
+//@ func lemmaRoundTripUnauthorized
+//@   prop C01
+//@   expand (*message.errorCodec).Encode, (*message.errorCodec).Decode
+//@   requires fitsErrorMessage: len(msg.ErrorMessage) <= 65535
+//@   ensures kind: result1 == nil ==> typeis(result0, *Unauthorized) && !isnil(unbox(result0, *Unauthorized))
+//@   ensures ErrorMessageLen: result1 == nil ==> len(unbox(result0, *Unauthorized).ErrorMessage) == len(msg.ErrorMessage)
+//@   ensures ErrorMessage: result1 == nil ==> forall k int :: 0 <= k && k < len(msg.ErrorMessage) ==> unbox(result0, *Unauthorized).ErrorMessage[k] == msg.ErrorMessage[k]
+
+func lemmaRoundTripInvalid(c *errorCodec, msg *Invalid, version primitive.ProtocolVersion) (Message, error) {
+	buf := &bytes.Buffer{}
+	if err := c.Encode(msg, buf, version); err != nil {
+		return nil, err
+	}
+	return c.Decode(buf, version)
+}
+
+//@ func lemmaRoundTripInvalid
+//@   prop C01
+//@   expand (*message.errorCodec).Encode, (*message.errorCodec).Decode
+//@   requires fitsErrorMessage: len(msg.ErrorMessage) <= 65535
+//@   ensures kind: result1 == nil ==> typeis(result0, *Invalid) && !isnil(unbox(result0, *Invalid))
+//@   ensures ErrorMessageLen: result1 == nil ==> len(unbox(result0, *Invalid).ErrorMessage) == len(msg.ErrorMessage)
+//@   ensures ErrorMessage: result1 == nil ==> forall k int :: 0 <= k && k < len(msg.ErrorMessage) ==> unbox(result0, *Invalid).ErrorMessage[k] == msg.ErrorMessage[k]
+
+func lemmaRoundTripConfigError(c *errorCodec, msg *ConfigError, version primitive.ProtocolVersion) (Message, error) {
+	buf := &bytes.Buffer{}
+	if err := c.Encode(msg, buf, version); err != nil {
+		return nil, err
+	}
+	return c.Decode(buf, version)
+}
+
+//@ func lemmaRoundTripConfigError
+//@   prop C01
+//@   expand (*message.errorCodec).Encode, (*message.errorCodec).Decode
+//@   requires fitsErrorMessage: len(msg.ErrorMessage) <= 65535
+//@   ensures kind: result1 == nil ==> typeis(result0, *ConfigError) && !isnil(unbox(result0, *ConfigError))
+//@   ensures ErrorMessageLen: result1 == nil ==> len(unbox(result0, *ConfigError).ErrorMessage) == len(msg.ErrorMessage)
+//@   ensures ErrorMessage: result1 == nil ==> forall k int :: 0 <= k && k < len(msg.ErrorMessage) ==> unbox(result0, *ConfigError).ErrorMessage[k] == msg.ErrorMessage[k]
+
+// <<< generated
